@@ -78,7 +78,11 @@ func (sdb *PreparedStmtDB) Reset() {
 			verifhook.At("closer.done", s)
 		}(stmt)
 	}
-	sdb.Stmts = make(map[string]*Stmt)
+	// empty the map in place: sessions derived with Session{PrepareStmt: true} share this very map, a
+	// fresh one would leave them preparing into a map that Reset and Close no longer see
+	for query := range sdb.Stmts {
+		delete(sdb.Stmts, query)
+	}
 }
 
 func (db *PreparedStmtDB) prepare(ctx context.Context, conn ConnPool, isTransaction bool, query string) (Stmt, error) {
